@@ -12,11 +12,11 @@ from vf.gen import chain
 from vf.ref import gfa as rg
 
 
-def gen_graph(rng, defects=None, n_chrom=None, id_style=None, scaffolds=None, kinds=None, end_style=None):
+def gen_graph(rng, defects=None, n_chrom=None, id_style=None, scaffolds=None, kinds=None, end_style=None, names=None):
     """chain graph whose chromosome components are named (majority SN vote) by their rank-0 contig"""
     for _ in range(50):
         g = chain.gen_chain_rgfa(rng, n_chrom=n_chrom, id_style=id_style, defects=defects,
-                                 scaffolds=scaffolds, kinds=kinds, end_style=end_style)
+                                 scaffolds=scaffolds, kinds=kinds, end_style=end_style, names=names)
         ok = True
         for c in g.chroms:
             cnt = collections.Counter(g.nodes[n].contig for n in c["nodes"])
@@ -57,7 +57,9 @@ def classify(g, comp, name):
 
 
 def argv_for(gfa, outdir, order, by_chrom, with_seq):
-    a = ["order_gfa", "--chromosome_order", ",".join(order), "--outdir", outdir]
+    a = ["order_gfa", "--outdir", outdir]
+    if order is not None:  # None: rely on the documented default order chr1..chr22,chrX,chrY,chrM
+        a += ["--chromosome_order", ",".join(order)]
     if by_chrom:
         a.append("--by-chrom")
     if with_seq:
